@@ -1,0 +1,100 @@
+//! Verification hooks. This whole module only exists when the crate is built
+//! with `--cfg multiqueue2_verif`; without it none of this is compiled and the
+//! `vpoint!`/`vnote_*!` macros in lib.rs expand to nothing.
+//!
+//! The crate never blocks, delays or records by itself: `point` forwards the
+//! site id to a callback registered by the external harness (a no-op when no
+//! callback is registered).
+use std::cell::Cell;
+use std::sync::atomic::Ordering::Relaxed;
+use std::sync::atomic::{AtomicU64, AtomicUsize};
+
+static CALLBACK: AtomicUsize = AtomicUsize::new(0);
+
+/// Milliseconds slept by `FutWait::fut_wait` before reporting NotReady
+/// (the unguarded crate always sleeps 100 ms).
+pub static FUT_PARK_SLEEP_MS: AtomicU64 = AtomicU64::new(100);
+
+/// Registers (or clears) the harness callback invoked at every hook site
+pub fn set_callback(f: Option<fn(u32)>) {
+    CALLBACK.store(f.map(|f| f as usize).unwrap_or(0), Relaxed);
+}
+
+#[inline(always)]
+pub fn point(site: u32) {
+    let raw = CALLBACK.load(Relaxed);
+    if raw != 0 {
+        let f: fn(u32) = unsafe { std::mem::transmute::<usize, fn(u32)>(raw) };
+        f(site);
+    }
+}
+
+pub const NO_POS: usize = ::std::usize::MAX;
+
+thread_local! {
+    static LAST_SENT: Cell<usize> = Cell::new(NO_POS);
+    static LAST_RECV: Cell<usize> = Cell::new(NO_POS);
+    static WAIT_PAIR: Cell<(usize, usize)> = Cell::new((NO_POS, NO_POS));
+}
+
+/// position claimed by the send this thread is performing
+#[inline(always)]
+pub fn note_sent(pos: usize) {
+    LAST_SENT.with(|c| c.set(pos));
+}
+
+/// position of the receive attempt this thread is about to commit
+#[inline(always)]
+pub fn note_recv_attempt(pos: usize) {
+    LAST_RECV.with(|c| c.set(pos));
+}
+
+/// (sequence waited for, tag of the slot being watched) handed to a wait/park
+#[inline(always)]
+pub fn note_wait_pair(seq: usize, tag: usize) {
+    WAIT_PAIR.with(|c| c.set((seq, tag)));
+}
+
+pub fn take_sent() -> usize {
+    LAST_SENT.with(|c| c.replace(NO_POS))
+}
+
+pub fn take_recv_attempt() -> usize {
+    LAST_RECV.with(|c| c.replace(NO_POS))
+}
+
+pub fn take_wait_pair() -> (usize, usize) {
+    WAIT_PAIR.with(|c| c.replace((NO_POS, NO_POS)))
+}
+
+macro_rules! sites {
+    ($($name:ident),* $(,)?) => {
+        #[allow(non_camel_case_types, dead_code)]
+        #[repr(u32)]
+        enum SiteEnum { $($name),*, __COUNT }
+        pub mod site {
+            $(pub const $name: u32 = super::SiteEnum::$name as u32;)*
+            pub const COUNT: u32 = super::SiteEnum::__COUNT as u32;
+        }
+        pub const SITE_NAMES: &[&str] = &[$(stringify!($name)),*];
+    };
+}
+
+sites!(
+    SS_HEAD, SS_TAILOK, SS_PINOK, SS_CLAIMED, SS_WRITTEN, SS_PUBLISHED,
+    SM_HEAD, SM_TAILOK, SM_PINOK, SM_CLAIMED, SM_WRITTEN, SM_PUBLISHED,
+    RT_M_SCANNED, RT_M_TOFAR, RT_S_SCANNED,
+    TS_ENTRY, TS_MODE_UNI, TS_BEFORE_NOTIFY,
+    R_POS, R_TAG, R_W0, R_PINNED, R_PIN_LOST, R_BEFORE_READ, R_READ, R_UNPINNED, R_CAS_LOST,
+    V_TAG, V_W0, V_BEFORE_OP, V_AFTER_OP, V_COMMITTED,
+    B_EMPTY, B_BEFORE_WAIT, POLL_ITER,
+    TX_CLONE_MARKED, TX_CLONE_BUILT, TX_DROP_DEC, TX_DROP_BEFORE_NOTIFY,
+    RX_CLONE_DUP, RX_UNSUB_DEC, RX_UNSUB_REMOVED, RX_UNSUB_DONE,
+    FW_PARK_LOCKED, FW_PARK_CHECKED, FW_SOP_BEFORE_LOCK, FW_SOP_FULL, FW_NOTIFY_BEFORE_LOCK,
+    GMD_LOADED_PTR, GMD_BETWEEN_READERS, GMD_BEFORE_RECHECK, GMD_RETRY,
+    AS_SNAPSHOT, AS_BEFORE_CAS, AS_PUBLISHED, AS_CAS_LOST,
+    RR_BEFORE_CAS, RR_PUBLISHED, RR_RETIRED, LA_MODE_SINGLE,
+    MM_FREE_ENTRY, MM_FREE_QUEUED, MM_TRYFREE_TOKEN, MM_DEALLOC, MM_EPOCH_BUMP,
+    MM_UPDATE_TOKEN, MM_REMOVE_TOKEN,
+    BW_BEFORE_LOCK, BW_CHECKED_FALSE, BW_WOKEN, BW_NOTIFY_BEFORE_LOCK, BW_NOTIFY_LOCKED,
+);
